@@ -83,6 +83,25 @@ func main() {
 	add("C04", "F12", "fixed", "ba2fbdb", "two alternatives with the same body were merged into one LR(1) item, so their reduce/reduce conflict was never announced: S : c | k S \"*\" | k S \"*\" ;",
 		camp.Witness{Kind: "c04", Grammar: f12})
 
+	// ---- F2 (fixed): epsilon-move worklist
+	add("C09", "F2", "fixed", "875e02b", "gocc never terminated (and allocated without bound) on a nullable body inside a repetition: t : 'x' { [ 'a' ] } ;",
+		camp.Witness{Kind: "c09", Text: "t : 'x' { [ 'a' ] } ;\n", Strs: []string{"nullable", "", ""}})
+	add("C09", "F2-b", "fixed", "875e02b", "gocc never terminated on t : 'q' { 'a' | [ 'b' ] } 'z' ;",
+		camp.Witness{Kind: "c09", Text: "t : 'q' { 'a' | [ 'b' ] } 'z' ;\n", Strs: []string{"nullable", "", ""}})
+	// ---- F5 (fixed): idMap quoting
+	add("C09", "F5", "fixed", "3b73433", "a raw string literal containing a backslash made go/format fail and an empty token.go was written with status zero",
+		camp.Witness{Kind: "c09", Text: "a : 'a' ;\nS : `\\` a | a a ;\n", Flags: []string{"-a"}, Strs: []string{"hostile", "", ""}})
+	// ---- F6 (fixed): back-quote / newline in production strings and comments
+	add("C09", "F6-a", "fixed", "1bb18af", "a back-quote inside a string literal made productionstable.go uncompilable",
+		camp.Witness{Kind: "c09", Text: "a : 'a' ;\nS : \"`\" a | a a ;\n", Flags: []string{"-a"}, Strs: []string{"hostile", "", ""}})
+	add("C09", "F6-b", "fixed", "907040a", "a newline inside a raw string literal broke the // comments of actiontable.go",
+		camp.Witness{Kind: "c09", Text: "a : 'a' ;\nS : `x\ny` a | a a ;\n", Flags: []string{"-a"}, Strs: []string{"hostile", "", ""}})
+	// ---- F4b (fixed): Lexer.Reset
+	f4b := &Grammar{Lex: []LexDef{tok("a", Seq(Lit('a'))), ign("!ws", Alts([]Term{Lit(' ')}, []Term{Lit('\n')}))},
+		NTs: []*NTDef{{Head: "S", Alts: []SAlt{{Body: []Sym{tk("a")}}, {Body: []Sym{nt("S"), tk("a")}}}}}}
+	add("C16", "F4b", "fixed", "ff84b64", "Lexer.Reset rewound the offset but kept line and column, so positions after Reset differed from a fresh lexer's",
+		camp.Witness{Kind: "reset", Grammar: f4b, Input: []byte("a\na a\n a"), Ints: []int64{3}})
+
 	out := map[string]interface{}{"findings": fs}
 	var log []string
 	for _, f := range fs {
